@@ -24,7 +24,8 @@ def _mkpool(params, up, extra=None):
               on_process_up=lambda w: (up.append(w.pid), log('process_up', wpid=w.pid)),
               on_process_down=lambda w: log('process_down', wpid=w.pid, exitcode=w.exitcode),
               on_process_exit=tasks.on_exit_cb,
-              max_memory_per_child=params.get('max_mem'))
+              max_memory_per_child=params.get('max_mem'),
+              enable_timeouts=bool(params.get('enable_timeouts')))
     if params.get('ctx'):
         kw['context'] = billiard.get_context(params['ctx'])
     if extra:
@@ -366,3 +367,281 @@ def sc_signal_worker(params, obs, save):
     t1 = time.monotonic()
     pool.terminate()
     obs['terminate_wall'] = time.monotonic() - t1
+
+
+# ------------------------------------------------------- C05 / C06 -------
+
+def _stamp_cb(store, key):
+    def cb(*a, **kw):
+        store.setdefault(key, []).append([time.monotonic(), list(a), kw])
+    return cb
+
+
+def sc_hard_limit(params, obs, save):
+    """one over-limit (or in-limit) job, with map/imap jobs sharing the pool
+    and probe jobs afterwards"""
+    hb = Heartbeat()
+    up = []
+    params = dict(params, enable_timeouts=True)   # per-job limits need the scanner
+    pool = _mkpool(params, up)
+    cbs = {}
+    eff = params['eff_limit']
+    dur = params['dur']
+    fn = {'c_sleep': tasks.t_value, 'python': tasks.t_busy, 'ignore_term': tasks.t_ignore_term,
+          'in_handler': tasks.t_in_handler, 'catch_base': tasks.t_catch_base}[params['task']]
+    kw = {}
+    if params.get('job_hard') is not None:
+        kw['timeout'] = params['job_hard']
+    siblings = []
+    if params.get('siblings'):
+        # map / imap on the same pool: they take no limit and run longer than it
+        items = [['sib.%d' % i, (eff or 1.0) * 0.7] for i in range(3)]
+        siblings.append(['map', pool.starmap_async(tasks.t_value, items, 1)])
+        siblings.append(['imap', pool.imap(_star_value, [['isib.%d' % i, (eff or 1.0) * 0.7]
+                                                         for i in range(2)])])
+    t_sub = time.monotonic()
+    h = pool.apply_async(fn, ('victim', dur), accept_callback=_stamp_cb(cbs, 'accept'),
+                         timeout_callback=_stamp_cb(cbs, 'timeout'),
+                         lost_worker_timeout=2.0, **kw)
+    _wait_for(lambda: h.ready(), dur + (eff or 0) + 25)
+    t_res = time.monotonic()
+    time.sleep(0.3)           # callbacks run right after the outcome is set
+    obs['resolved'] = h.ready()
+    obs['outcome'] = _outcome(lambda: h.get(0)) if h.ready() else ['unresolved']
+    acc = cbs.get('accept')
+    obs['accept'] = acc[0][1] if acc else None
+    obs['t_accept_to_resolution'] = (t_res - acc[0][0]) if acc else None
+    obs['timeout_cb'] = [[c[2].get('soft'), c[2].get('timeout')] for c in cbs.get('timeout', [])]
+    victim = acc[0][1][0] if acc else None
+    obs['victim'] = victim
+    if victim and obs['outcome'][0] == 'exc' and obs['outcome'][1] == 'TimeLimitExceeded':
+        gone = _wait_for(lambda: pid_exists(victim) in (None, 'Z'), 6)
+        obs['victim_gone_after'] = time.monotonic() - t_res
+        obs['victim_state'] = pid_exists(victim)
+    save()
+    obs['siblings'] = [[k, _collect({'kind': k}, s, 20) if k != 'map'
+                        else _outcome(lambda s=s: s.get(30))] for k, s in siblings]
+    probes = [pool.apply_async(tasks.t_pid, ('probe.%d' % i, 0.05)) for i in range(params.get('probes', 3))]
+    obs['probes'] = [_outcome(lambda o=o: o.get(20)) for o in probes]
+    obs['worst_stall'] = hb.stop()
+    save()
+    pool.terminate()
+
+
+def sc_soft_limit(params, obs, save):
+    hb = Heartbeat()
+    up = []
+    params = dict(params, enable_timeouts=True)   # per-job limits need the scanner
+    pool = _mkpool(params, up)
+    cbs = {}
+    kw = {}
+    if params.get('job_soft') is not None:
+        kw['soft_timeout'] = params['job_soft']
+    if params.get('job_hard') is not None:
+        kw['timeout'] = params['job_hard']
+    h = pool.apply_async(tasks.t_catch_soft, ('victim', params['dur'], params.get('catch', True)),
+                         accept_callback=_stamp_cb(cbs, 'accept'),
+                         timeout_callback=_stamp_cb(cbs, 'timeout'), **kw)
+    # back-to-back job on the same pool, without any soft limit of its own
+    # when the pool has none (stale-signal trap on a one-worker pool)
+    h2 = pool.apply_async(tasks.t_catch_soft, ('next', params.get('next_dur', 1.5), True),
+                          soft_timeout=params.get('next_soft'))
+    _wait_for(lambda: h.ready(), params['dur'] + 25)
+    obs['outcome'] = _outcome(lambda: h.get(0)) if h.ready() else ['unresolved']
+    _wait_for(lambda: h2.ready(), params.get('next_dur', 1.5) + 25)
+    obs['next_outcome'] = _outcome(lambda: h2.get(0)) if h2.ready() else ['unresolved']
+    obs['timeout_cb'] = [[c[2].get('soft'), c[2].get('timeout')] for c in cbs.get('timeout', [])]
+    obs['worst_stall'] = hb.stop()
+    save()
+    pool.terminate()
+
+
+# ---------------------------------------------------------------- C04 ----
+
+def sc_worker_death(params, obs, save):
+    hb = Heartbeat()
+    up = []
+    pool = _mkpool(params, up)
+    T = params['T_job']
+    kind = params['job_kind']
+    how, point = params['how'], params['point']
+    cbs = {}
+    others = [pool.apply_async(tasks.t_value, ('other.%d' % i, params.get('other_dur', 0.6)),
+                               lost_worker_timeout=T)
+              for i in range(params.get('others', 1))]
+    t0 = time.monotonic()
+    external = params.get('external')
+    if kind == 'apply':
+        if external:
+            h = pool.apply_async(tasks.t_value, ('victim', 30), lost_worker_timeout=T,
+                                 accept_callback=_stamp_cb(cbs, 'accept'))
+        else:
+            h = pool.apply_async(tasks.t_selfkill, ('victim', how, point, 0.15),
+                                 lost_worker_timeout=T, accept_callback=_stamp_cb(cbs, 'accept'))
+    elif kind == 'map':
+        items = [['m.%d' % i, 'none' if i != 1 else how, point] for i in range(3)]
+        h = pool.map_async(_maybe_kill, items, 1)
+    else:
+        items = [['i.%d' % i, 'none' if i != 1 else how, point] for i in range(3)]
+        f = pool.imap if kind == 'imap' else pool.imap_unordered
+        h = f(_maybe_kill, items, 1, lost_worker_timeout=T)
+    if external:
+        _wait_for(lambda: 'accept' in cbs, 10)
+        time.sleep(params.get('ext_delay', 0.2))
+        victim = cbs['accept'][0][1][0]
+        log('task_dying', tag='victim', external=True, wpid=victim)
+        os.kill(victim, int(how[4:]))
+    obs['job_id'] = h._job if hasattr(h, '_job') else None
+    wait = (10.0 if kind == 'map' else T) + 12
+    if kind == 'apply':
+        _wait_for(lambda: 'accept' in cbs, 10)
+        if 'accept' in cbs:
+            obs['accept_t'] = cbs['accept'][0][0]
+            obs['victim'] = cbs['accept'][0][1][0]
+    if kind in ('apply', 'map'):
+        _wait_for(lambda: h.ready(), wait)
+        obs['t_resolved'] = time.monotonic()
+        obs['outcome'] = _outcome(lambda: h.get(0)) if h.ready() else ['unresolved']
+    else:
+        obs['outcome'] = _collect({'kind': kind}, h, wait)
+        obs['t_resolved'] = time.monotonic()
+    obs['others'] = [_outcome(lambda o=o: o.get(20)) for o in others]
+    # pool size restored (supervision period 0.8 s)
+    _wait_for(lambda: len([w for w in pool._pool if w._is_alive()]) == params['nproc'], 6)
+    obs['live_workers'] = len([w for w in pool._pool if w._is_alive()])
+    obs['ups'] = len(up)
+    probes = [pool.apply_async(tasks.t_pid, ('probe.%d' % i, 0.02)) for i in range(2)]
+    obs['probes'] = [_outcome(lambda o=o: o.get(20)) for o in probes]
+    obs['cache_left'] = len(pool._cache)
+    obs['worst_stall'] = hb.stop()
+    save()
+    pool.terminate()
+
+
+def _maybe_kill(a):
+    tag, how, point = a
+    if how == 'none':
+        return tasks.t_value(tag, 0.3)
+    return tasks.t_selfkill(tag, how, point, 0.15)
+
+
+# ---------------------------------------------------------------- C09 ----
+
+def sc_recycle(params, obs, save):
+    hb = Heartbeat()
+    up = []
+    pool = _mkpool(params, up)
+    handles = []
+    t0 = time.monotonic()
+    for job in params['jobs']:
+        _submit(pool, job, handles)
+    if params.get('kill_idle'):
+        time.sleep(0.5)
+    res = []
+    for job, h in handles:
+        if job['kind'] in ('apply', 'map'):
+            res.append([job, _outcome(lambda h=h: h.get(params.get('wait', 60)))])
+        else:
+            res.append([job, _collect(job, h, params.get('wait', 60))])
+    obs['results'] = res
+    obs['wall'] = time.monotonic() - t0
+    time.sleep(1.2)      # let supervision bring the pool back to size
+    obs['live_workers'] = len([w for w in pool._pool if w._is_alive()])
+    obs['indices'] = sorted(getattr(w, 'index', -1) for w in pool._pool)
+    obs['ups'] = len(up)
+    obs['cache_left'] = len(pool._cache)
+    obs['worst_stall'] = hb.stop()
+    save()
+    pool.terminate()
+
+
+def sc_kill_idle(params, obs, save):
+    """workers killed while idle are replaced; no job is affected"""
+    up = []
+    pool = _mkpool(params, up)
+    seen = set()
+    t_end = time.monotonic() + 20
+    while len(seen) < params['nproc'] and time.monotonic() < t_end:
+        hs = [pool.apply_async(tasks.t_pid, ('warm', 0.1)) for _ in range(params['nproc'])]
+        for x in hs:
+            seen.add(x.get(20)[2])
+    time.sleep(0.2)
+    victims = sorted(seen)[:params.get('kill', 1)]
+    for v in victims:
+        log('idle_kill', wpid=v)
+        os.kill(v, params.get('sig', 9))
+    hs = [pool.apply_async(tasks.t_pid, ('after.%d' % i, 0.05)) for i in range(6)]
+    obs['after'] = [_outcome(lambda o=o: o.get(20)) for o in hs]
+    _wait_for(lambda: len([w for w in pool._pool if w._is_alive()]) == params['nproc']
+              and not any(w.pid in victims for w in pool._pool), 6)
+    obs['live_workers'] = len([w for w in pool._pool if w._is_alive()])
+    obs['victims_still_in_pool'] = [w.pid for w in pool._pool if w.pid in victims]
+    obs['indices'] = sorted(getattr(w, 'index', -1) for w in pool._pool)
+    obs['ups'] = len(up)
+    save()
+    pool.terminate()
+
+
+# ---------------------------------------------------------------- C10 ----
+
+def sc_putlocks(params, obs, save):
+    up = []
+    params = dict(params, putlocks=True)
+    pool = _mkpool(params, up)
+    n = params['nproc']
+    wd = os.environ.get('VERIF_WORKDIR', '/tmp')
+    gate = os.path.join(wd, 'gate-%d' % os.getpid())
+    first = [pool.apply_async(tasks.t_gate, ('hold.%d' % i, gate, 40)) for i in range(n)]
+    _wait_for(lambda: all(h.accepted() for h in first), 15)
+    ev = {}
+
+    def submitter():
+        ev['t_call'] = time.monotonic()
+        h = pool.apply_async(tasks.t_value, ('blocked', 0.01))
+        ev['t_return'] = time.monotonic()
+        ev['h'] = h
+    th = threading.Thread(target=submitter, daemon=True)
+    th.start()
+    time.sleep(params.get('hold', 1.0))
+    obs['submitter_returned_while_full'] = 't_return' in ev
+    with pool._putlock._cond:
+        obs['value_while_full'] = pool._putlock._value
+    t_open = time.monotonic()
+    open(gate, 'w').close()
+    log('gate_open')
+    th.join(20)
+    obs['submitter_returned_after_open'] = 't_return' in ev
+    obs['return_minus_open'] = (ev['t_return'] - t_open) if 't_return' in ev else None
+    obs['first'] = [_outcome(lambda o=o: o.get(20)) for o in first]
+    if 'h' in ev:
+        obs['blocked_outcome'] = _outcome(lambda: ev['h'].get(20))
+    # a burst of submissions: never more than n in flight
+    hs = [pool.apply_async(tasks.t_value, ('burst.%d' % i, 0.05)) for i in range(3 * n + 2)]
+    obs['burst'] = [_outcome(lambda o=o: o.get(30))[0] for o in hs]
+    time.sleep(0.3)
+    with pool._putlock._cond:
+        obs['value_at_quiescence'] = pool._putlock._value
+        obs['bound'] = pool._putlock._initial_value
+    save()
+    pool.terminate()
+
+
+# ---------------------------------------------------------------- C11 ----
+
+def sc_startup_burst(params, obs, save):
+    """workers that exit in their initializer: the start-up burst limit"""
+    got = []
+    signal.signal(signal.SIGTERM, lambda s, f: got.append(time.monotonic()))
+    up = []
+    t0 = time.monotonic()
+    pool = _mkpool(params, up, {'initializer': tasks.init_exit_immediately,
+                                'max_restarts': params.get('max_restarts'),
+                                'max_restart_freq': params.get('max_restart_freq', 1)})
+    # the supervisor answers the limiter with close()+join() and a TERM to the host
+    _wait_for(lambda: bool(got), params.get('wait', 25))
+    obs['host_termed_after'] = (got[0] - t0) if got else None
+    obs['ups'] = len(up)
+    time.sleep(0.5)
+    obs['ups_late'] = len(up)
+    obs['pool_state'] = pool._state
+    save()
